@@ -107,6 +107,9 @@ class SimpleEventgroup:
         """
         if not self.has_clients.is_set():
             return
+        # every subscriber iterates over the events: a one-shot iterable would be
+        # exhausted by the first one
+        events = tuple(events)
         asyncio.create_task(self._notify_all(events=events, label="event"))
 
     @utils.log_exceptions()
